@@ -92,3 +92,10 @@ Example C21_nonvacuous :
   expand_program_sm defs (fun _ => true) body = Ok (out, m)
   /\ chk_map defs (fun _ => true) [] body 0 0 m out = true.
 Proof. vm_compute. split; reflexivity. Qed.
+
+(** [WFmap] pins the map down completely: for a given source there is exactly one well-formed
+    (map, output) pair, so a map accepted by the checker IS the model's map. *)
+Theorem C21_map_unique :
+  forall defs sel st l k b es out es' out',
+    WFmap defs sel st l k b es out -> WFmap defs sel st l k b es' out' -> es = es' /\ out = out'.
+Proof. intros defs sel st l k b es out es' out' H. now apply WFmap_fun. Qed.
